@@ -9,6 +9,7 @@
 #include <tbox/eventx/work_thread.h>
 #include <tbox/base/verif_hooks.h>
 #include <thread>
+#include <stdexcept>
 #include <atomic>
 #include <memory>
 #include <algorithm>
@@ -128,7 +129,7 @@ std::string run_impl(const Scenario &s, CaseInfo &info) {
   int epoch = 0; bool ready = false; int cur_max = mx, max_allowed = mx;
   uint64_t cleanup_end_stamp[64] = {0};
   bool nt_query_overlap = false, nt_cleanup_mixed = false, prio_mix = false;
-  int n_status = 0, n_cancel = 0, n_cancel_ok = 0;
+  int n_status = 0, n_cancel = 0, n_cancel_ok = 0, n_throwing = 0;
   {
     A a(loop);
     tbox::verif::SchedPointHookRef().store(&sched_hook);
@@ -177,7 +178,9 @@ std::string run_impl(const Scenario &s, CaseInfo &info) {
           t.prio = std::max(THREAD_POOL_PRIO_MIN, std::min(THREAD_POOL_PRIO_MAX, prio));
           if (!A::kIsPool) t.prio = 0;
           Shared *shp = &sh;
-          auto body = [shp, i, kind, us, gate] {
+          // a body may end by throwing: both pools run it through CatchThrow(), i.e. an exception ends the body like a return
+          bool throws = op.in(6, 0, 4) == 4; if (throws) n_throwing++;
+          auto body = [shp, i, kind, us, gate, throws] {
             TaskRec &t = shp->t[i];
             if (std::this_thread::get_id() == shp->main_tid) t.body_on_loop_thread = true;
             int r = shp->running.fetch_add(1) + 1; int m = shp->max_running.load(); while (r > m && !shp->max_running.compare_exchange_weak(m, r)) { }
@@ -186,6 +189,7 @@ std::string run_impl(const Scenario &s, CaseInfo &info) {
             else if (kind >= 2) { while (!shp->gate_open[gate].load() && !shp->cleanup_started.load()) std::this_thread::sleep_for(std::chrono::microseconds(50)); }
             shp->running.fetch_sub(1);
             t.body_end.store(shp->next());
+            if (throws) throw std::runtime_error("c05: task body throws");
           };
           bool on_alt = t.on_alt_loop;
           auto cb = [shp, i, on_alt] {
@@ -308,6 +312,7 @@ std::string run_impl(const Scenario &s, CaseInfo &info) {
   info.cls_if(epoch > 0, "reinitialised");
   { bool any_alt = false; for (int i = 0; i < sh.n; ++i) if (sh.t[i].on_alt_loop && sh.t[i].cb_count.load()) any_alt = true; info.cls_if(any_alt, "callback_on_explicit_second_loop"); }
   info.cls_if(n_cancel_ok > 0, "cancel_succeeded");
+  info.cls_if(n_throwing > 0, "task_body_ends_by_throwing");
   info.cls_if(g_sched_hits.load() > 0, "sched_point_delay_applied");
   info.cls_if(sh.max_running.load() >= 2, "bodies_in_parallel");
   info.nontrivial = sh.n > 0 && (nt_query_overlap || nt_cleanup_mixed || (order_checked && prio_mix) || (epoch > 0 && n_cancel_ok > 0));
@@ -319,7 +324,7 @@ rc::Gen<Scenario> gen_common(bool pool) {
   auto tok = range(0, kMaxTasks - 1);
   auto body = rc::gen::weightedOneOf<int64_t>({{4, rc::gen::just<int64_t>(0)}, {3, rc::gen::just<int64_t>(1)}, {3, rc::gen::just<int64_t>(2)}});
   auto opg = rc::gen::weightedOneOf<Op>({
-    {10, mkop(EXEC, {range(-3, 3), body, rc::gen::weightedOneOf<int64_t>({{3, range(0, 40)}, {1, range(0, 400)}}), range(0, kGates - 1), range(0, 1), range(0, 2)})},
+    {10, mkop(EXEC, {range(-3, 3), body, rc::gen::weightedOneOf<int64_t>({{3, range(0, 40)}, {1, range(0, 400)}}), range(0, kGates - 1), range(0, 1), range(0, 2), range(0, 4)})},
     {5, mkop(STATUS, {tok, range(0, 2)})},
     {4, mkop(CANCEL, {tok, range(0, 2)})},
     {1, mkop(SNAP, {})},
@@ -340,7 +345,7 @@ rc::Gen<Scenario> gen_common(bool pool) {
 SubDef mk(const char *name, bool pool) {
   SubDef d; d.name = name;
   d.op_names = {"cfg", "sched", "exec", "status", "cancel", "snap", "open", "wait", "pump", "cleanup", "init", "quiesce"};
-  d.op_arity = {3, 3, 6, 2, 2, 0, 1, 1, 0, 0, 1, 0};
+  d.op_arity = {3, 3, 7, 2, 2, 0, 1, 1, 0, 0, 1, 0};
   d.nt_rule = "history with tasks where a status/cancel query overlapped a worker's pick-up (task started during the call), or cleanup was called with >= 1 running and >= 1 waiting task, or the single-worker pick order was decided over mixed priorities, or a cancel succeeded after a re-initialise";
   if (pool) d.run = run_impl<PoolAdapter>; else d.run = run_impl<WorkAdapter>;
 #ifndef VERIF_ENGINE_FUZZ
